@@ -412,8 +412,96 @@ def judge(case, res, want_cert_data=False):
             want = [x for j in range(3) for x in (float(Vf[:, j].min()), float(Vf[:, j].max()))]
             if [float(x) for x in rb["root_aabb"]] != want:
                 fails.append(f"RigidBody.aabb() {rb['root_aabb']} != bounds of the (body frame) vertices {want}")
+    # 6. histories on one RigidBody: every read agrees with a direct computation on the CURRENT vertices
+    if res.get("history") is not None:
+        fails += judge_history(case, res, E)
+        st["history_steps"] = len(res["history"])
     out = dict(fails=fails, stats=st)
     if want_cert_data:
         out["cert"] = dict(k=k, ints=[int(x) for x in ints], sigma=sigma, total=int(T6),
                            all_positive=not bad)
     return out
+
+
+def exact_com(Vflat, E):
+    """exact centre of mass (Fractions) of the mesh with binary64 vertices Vflat and elements E"""
+    ints, k = to_int_coords(Vflat)
+    VI = obj(ints).reshape(-1, 3)
+    a, b, c, d = VI[E[:, 0]], VI[E[:, 1]], VI[E[:, 2]], VI[E[:, 3]]
+    det = det3_o(b - a, c - a, d - a)
+    absdet = [abs(int(x)) for x in det]
+    tot = sum(absdet)
+    if tot == 0:
+        return None
+    cs = a + b + c + d
+    scale = Fraction(1, 1 << k)
+    return [Fraction(sum(int(w) * int(cs[i, j]) for i, w in enumerate(absdet)), 4 * tot) * scale for j in range(3)]
+
+
+def judge_history(case, res, E):
+    """RigidBody cache semantics: after any sequence of reads and express_in calls, com / aabbs / tetrahedra_points /
+    aabb() / tetrahedra_potentials equal what a direct computation on the current vertices_ gives, the elements and
+    potentials never change, and express_in keeps every vertex where it is in the world frame."""
+    fails = []
+    name = case["factory"]
+    hist = res["history"]
+    P = np.array(res["potentials"], dtype=float)
+    prevV = np.array(res["vertices"], dtype=float).reshape(-1, 3)
+    prevT = np.array(case["pose"], dtype=float).reshape(4, 4)
+    if name == "sphere":
+        T0 = np.eye(4)
+        T0[:3, 3] = prevT[:3, 3]
+        prevT = T0
+    for k, (op, rec) in enumerate(zip(case["history"], hist)):
+        where = f"RigidBody.make_{name} history step {k} ({op[0]})"
+        if "exc" in rec:
+            fails.append(f"{where}: raised {rec['exc']}: {rec.get('exc_msg', '')}")
+            break
+        V = np.array(rec["vertices"], dtype=float).reshape(-1, 3)
+        T = np.array(rec["body2origin"], dtype=float).reshape(4, 4)
+        if not rec["same_tetrahedra"] or not rec["same_potentials"]:
+            fails.append(f"{where}: tetrahedra_ / potentials_ changed")
+            break
+        Lw = max(1.0, float(np.abs(prevV).max()), float(np.abs(V).max()), float(np.abs(T[:3, 3]).max()), float(np.abs(prevT[:3, 3]).max()))
+        if op[0] == "express_in":
+            want_T = np.array(op[1], dtype=float).reshape(4, 4)
+            if not np.array_equal(T, want_T):
+                fails.append(f"{where}: body2origin_ is not the requested frame")
+                break
+            w_old = prevV @ prevT[:3, :3].T + prevT[:3, 3]
+            w_new = V @ T[:3, :3].T + T[:3, 3]
+            if w_old.shape != w_new.shape or float(np.abs(w_old - w_new).max()) > 1e-9 * Lw:
+                fails.append(f"{where}: vertices moved in the world frame by {float(np.abs(w_old - w_new).max()):.3e}")
+                break
+        else:
+            if not np.array_equal(V, prevV) or not np.array_equal(T, prevT):
+                fails.append(f"{where}: a read changed vertices_ / body2origin_")
+                break
+            val = rec.get("value", [])
+            tp = V[E]
+            if op[0] == "com":
+                ex = exact_com(rec["vertices"], E)
+                if ex is None or len(val) != 3 or max(abs(Fraction(float(val[j])) - ex[j]) for j in range(3)) > Fraction(1, 10**9) * Fraction(Lw):
+                    fails.append(f"{where}: com = {val} but the centre of mass of the current tetrahedra_points is "
+                                 f"{[float(x) for x in ex] if ex else None} (stale cache?)")
+                    break
+            elif op[0] == "aabbs":
+                want = np.dstack((tp.min(axis=1), tp.max(axis=1))).reshape(-1).tolist()
+                if [float(x) for x in val] != want:
+                    fails.append(f"{where}: aabbs differ from min/max of the current tetrahedra_points (stale cache?)")
+                    break
+            elif op[0] == "tp":
+                if [float(x) for x in val] != tp.reshape(-1).tolist():
+                    fails.append(f"{where}: tetrahedra_points differ from vertices_[tetrahedra_] (stale cache?)")
+                    break
+            elif op[0] == "tpot":
+                if [float(x) for x in val] != P[E].reshape(-1).tolist():
+                    fails.append(f"{where}: tetrahedra_potentials differ from potentials_[tetrahedra_]")
+                    break
+            elif op[0] == "aabb":
+                want = [x for j in range(3) for x in (float(tp[:, :, j].min()), float(tp[:, :, j].max()))]
+                if [float(x) for x in val] != want:
+                    fails.append(f"{where}: aabb() {val} != bounds of the current tetrahedra_points {want} (stale tree?)")
+                    break
+        prevV, prevT = V, T
+    return fails
